@@ -76,8 +76,8 @@ void h_cover(void) {
     struct VValue l = vdefault(), r = vdefault(); l.kind = K_KNOWN; l.intvalue = 3; r.kind = K_KNOWN; r.intvalue = 5; g_op = 0;
     struct VValue res = evaluate(1, 0, 0, 0, &l, &r);
     __CPROVER_assert(!(res.vtype == VV_INT && res.intvalue == 0 && res.kind != K_IMPOSSIBLE), "COVER: 3 == 5 is 0");
-    l.kind = K_IMPOSSIBLE; g_op = 1;
-    res = evaluate(1, 0, 1, 0, &l, &r);
+    l.kind = K_IMPOSSIBLE; g_op = 0;
+    res = evaluate(1, 0, 0, 0, &l, &r);
     __CPROVER_assert(!(res.vtype == VV_INT), "COVER: an impossible operand gives a result");
 }
 '''
